@@ -8,7 +8,7 @@ class FilteredConfigParser(ObjectProxy):
   filters out entries for particular, unwanted species"""
 
 
-  def __init__(self, config_parser, exclude = [], include = []):
+  def __init__(self, config_parser, exclude = None, include = None):
     """Wrap existing ConfigParser so that it excludes entries
     for unwanted species.
 
@@ -26,10 +26,13 @@ class FilteredConfigParser(ObjectProxy):
 
     # Note: attributes need the _self_ prefix to be stored on this proxy rather than
     # on the wrapped ConfigParser (where they would be shared by all its filtered views).
-    if exclude:
+    if exclude or (exclude is not None and include is None):
+      # An empty `exclude` collection is a valid filter that removes nothing.
       self._self_species_list = exclude
       self._self_exclude_flag = True
     else:
+      if include is None:
+        include = []
       self._self_species_list = include
       self._self_exclude_flag = False
     
